@@ -337,3 +337,109 @@ Lemma gen_reset_model : forall v lvs,
   omap (fun lv => mktree lv v) (gen_tree_reset lvs) = Ok (reset (mktree lvs v))
   /\ ok_opt (gen_tree_is_empty lvs) = ok_opt (tree_is_empty (mktree lvs v)).
 Proof. intros. split; [apply gen_tree_reset_model|apply gen_tree_is_empty_model]. Qed.
+
+(* ------------------------------------------------------------------ a whole batch on the translated code *)
+Require Import RV.Spec.RefMerkle RV.Proofs.MerkleModel.
+
+(* what Responder does with its tree in one batch, composed from the TRANSLATED functions:
+   reset; push_leaf for every request; compute_root; get_paths for every position *)
+Fixpoint gen_push_all (H : bytes -> bytes) (v : version) (lvs : list (list bytes)) (ls : list bytes)
+  : res (list (list bytes)) :=
+  match ls with
+  | [] => Ok lvs
+  | d :: r => obind (gen_push_leaf H v lvs d) (fun l' => gen_push_all H v l' r)
+  end.
+
+Fixpoint gen_all_paths (v : version) (lvs : list (list bytes)) (n i : nat) : res (list bytes) :=
+  match n with
+  | O => Ok []
+  | S n' => obind (gen_get_paths v lvs (N.of_nat i)) (fun p =>
+            obind (gen_all_paths v lvs n' (S i)) (fun r => Ok (p :: r)))
+  end.
+
+Definition gen_batch (H : bytes -> bytes) (v : version) (lvs : list (list bytes)) (ls : list bytes)
+  : res (list (list bytes) * bytes * list bytes) :=
+  obind (gen_tree_reset lvs) (fun l0 =>
+  obind (gen_push_all H v l0 ls) (fun l1 =>
+  obind (gen_compute_root H v l1) (fun '(root, l2) =>
+  obind (gen_all_paths v l2 (length ls) 0) (fun ps => Ok (l2, root, ps))))).
+
+Definition lift_u {A} (x : outcome unit A) : option A := match x with Ok a => Some a | _ => None end.
+
+Lemma kt_push_leaf_tver : forall H t d t', push_leaf H t d = Ok t' -> t' = mktree (levels t') (tver t).
+Proof.
+  intros H t d t'. unfold push_leaf. destruct (levels t) as [|l0 r]; [discriminate|].
+  intros Heq. injection Heq as <-. reflexivity.
+Qed.
+
+Lemma kt_push_all : forall H, HashLen H -> forall v ls lvs,
+  ok_opt (gen_push_all H v lvs ls) = option_map levels (lift_u (push_all H (mktree lvs v) ls)).
+Proof.
+  intros H HL v. induction ls as [|d ls IH]; intros lvs; [reflexivity|].
+  cbn [gen_push_all push_all]. pose proof (gen_push_leaf_model H HL v lvs d) as Hp.
+  destruct (gen_push_leaf H v lvs d) as [l'| |]; destruct (push_leaf H (mktree lvs v) d) as [t'| |] eqn:Ept;
+    cbn [omap ok_opt obind lift_u option_map] in *; try discriminate Hp; try reflexivity.
+  injection Hp as Hp. apply kt_push_leaf_tver in Ept. cbn [tver] in Ept. rewrite Ept, <- Hp. apply IH.
+Qed.
+
+Lemma kt_all_paths : forall v lvs n i,
+  ok_opt (gen_all_paths v lvs n i) = lift_u (all_paths (mktree lvs v) n i).
+Proof.
+  intros v lvs. induction n as [|n IH]; intros i; [reflexivity|].
+  cbn [gen_all_paths all_paths]. pose proof (gen_get_paths_model v lvs (N.of_nat i)) as Hg. rewrite Nat2N.id in Hg.
+  destruct (gen_get_paths v lvs (N.of_nat i)) as [p| |]; destruct (get_paths (mktree lvs v) i) as [p'| |];
+    cbn [ok_opt obind lift_u] in *; try discriminate Hg; try reflexivity.
+  injection Hg as <-. specialize (IH (S i)).
+  destruct (gen_all_paths v lvs n (S i)) as [r| |]; destruct (all_paths (mktree lvs v) n (S i)) as [r'| |];
+    cbn [ok_opt obind lift_u] in *; try discriminate IH; try reflexivity.
+  injection IH as <-. reflexivity.
+Qed.
+
+Lemma kt_compute_root_tver : forall H t t' out, compute_root H t = Ok (t', out) -> t' = mktree (levels t') (tver t).
+Proof.
+  intros H t t' out. unfold compute_root. destruct (levels t) as [|l0 above]; [discriminate|].
+  destruct l0 as [|n0 l0]; [discriminate|].
+  destruct (root_loop H _ (tver t) [] (n0 :: l0) above _) as [[lv o]| |]; cbn [obind]; try discriminate.
+  intros Heq. injection Heq as <- _. reflexivity.
+Qed.
+
+Lemma kt_tree_eta : forall t : tree, t = mktree (levels t) (tver t).
+Proof. intros [l v]. reflexivity. Qed.
+
+Lemma kt_push_all_tver : forall H ls t t', push_all H t ls = Ok t' -> tver t' = tver t.
+Proof.
+  intros H. induction ls as [|d ls IH]; intros t t' Hp; cbn [push_all] in Hp.
+  - injection Hp as <-. reflexivity.
+  - destruct (push_leaf H t d) as [t1| |] eqn:E1; cbn [obind] in Hp; try discriminate Hp.
+    rewrite (IH _ _ Hp). apply kt_push_leaf_tver in E1. rewrite E1. reflexivity.
+Qed.
+
+(* C04 of the code as written: on ANY tree left behind by earlier batches (at least one level), the
+   translated reset / push_leaf / compute_root / get_paths produce exactly the functional tree's root
+   and, for every position, its path — for every batch of 1 .. 2^32 leaves *)
+Theorem gen_batch_is_spec : forall H, HashLen H -> forall v lvs ls, lvs <> [] -> batch_ok ls ->
+  exists lvs', gen_batch H v lvs ls = Ok (lvs', spec_root H v ls, spec_paths H v ls) /\ lvs' <> [].
+Proof.
+  intros H HL v lvs ls Hne Hok.
+  destruct (model_is_spec H v (mktree lvs v) ls HL eq_refl Hne Hok) as [t' [Hb [Hv' Hne']]].
+  exists (levels t'). split; [|exact Hne'].
+  apply ks_ok_opt_some. unfold gen_batch, batch in *. cbn [gen_tree_reset obind].
+  pose proof (kt_push_all H HL v ls (map (fun _ : list bytes => []) lvs)) as Hpa.
+  change (mktree (map (fun _ : list bytes => []) lvs) v) with (reset (mktree lvs v)) in Hpa.
+  destruct (push_all H (reset (mktree lvs v)) ls) as [t1| |] eqn:Ep; cbn [obind] in Hb; try discriminate Hb.
+  destruct (gen_push_all H v (map (fun _ : list bytes => []) lvs) ls) as [l1| |]; cbn [ok_opt lift_u option_map] in Hpa; try discriminate Hpa.
+  injection Hpa as ->. cbn [obind].
+  assert (Ht1 : t1 = mktree (levels t1) v).
+  { rewrite (kt_tree_eta t1) at 1. f_equal. apply (kt_push_all_tver H ls _ _ Ep). }
+  pose proof (gen_compute_root_model H HL v (levels t1)) as Hc. rewrite <- Ht1 in Hc.
+  destruct (compute_root H t1) as [[t2 root]| |] eqn:Ec; cbn [obind] in Hb; try discriminate Hb.
+  destruct (gen_compute_root H v (levels t1)) as [[root' l2]| |]; cbn [ok_opt obo fst snd] in Hc; try discriminate Hc.
+  injection Hc as -> ->. cbn [obind].
+  assert (Ht2 : t2 = mktree (levels t2) v).
+  { pose proof (kt_compute_root_tver H t1 t2 root Ec) as Ht. rewrite Ht1 in Ht. cbn [tver] in Ht. exact Ht. }
+  pose proof (kt_all_paths v (levels t2) (length ls) 0) as Hap. rewrite <- Ht2 in Hap.
+  destruct (all_paths t2 (length ls) 0) as [ps| |]; cbn [obind] in Hb; try discriminate Hb.
+  destruct (gen_all_paths v (levels t2) (length ls) 0) as [ps'| |]; cbn [ok_opt lift_u] in Hap; try discriminate Hap.
+  injection Hap as ->. cbn [obind ok_opt].
+  injection Hb as <- <- <-. reflexivity.
+Qed.
